@@ -248,6 +248,120 @@ def main(prop, body):
     sys.exit(rc)
 
 
+def same_value(ex, a, b, depth=0):
+    """Are two symbolic values the same value?  (a clone is a different Python object but the same value): identical z3
+    terms, same variant / fields recursively, same referent for references, same model object."""
+    import z3 as _z3
+    from mirsmt.values import Adt, Ref, Lazy, Obj
+    if a is b:
+        return True
+    if depth > 12:
+        return False
+    for x, y in ((a, b), (b, a)):
+        # an untyped lazy leaf and the pointer it materialises to under its pointer type
+        if isinstance(x, Lazy) and isinstance(y, Ref) and y.path == () and y.cell.name == x.name:
+            return True
+        if isinstance(x, Adt) and not x.fields and x.discr is None and x.name and isinstance(y, Ref) and y.path == () and y.cell.name == x.name:
+            return True
+    for x, y in ((a, b), (b, a)):
+        # an untyped lazy leaf and the scalar constant it materialises to under its type
+        if isinstance(x, Lazy) and _z3.is_expr(y) and _z3.is_const(y) and str(y) == x.name:
+            return True
+    a, b = ex.materialize(a), ex.materialize(b)
+    for x, y in ((a, b), (b, a)):
+        if isinstance(x, Adt) and not x.fields and x.discr is None and x.name and isinstance(y, Ref) and y.path == () and y.cell.name == x.name:
+            return True
+        if isinstance(x, Adt) and not x.fields and x.discr is None and x.name and _z3.is_expr(y) and _z3.is_const(y) and str(y) == x.name:
+            return True
+    if a is b:
+        return True
+    def eq_terms(x, y):
+        if x.sort() != y.sort():
+            return False
+        if _z3.is_true(_z3.simplify(x == y)):
+            return True
+        return not ex.check(x != y)          # equal under the path condition
+    if _z3.is_expr(a) and _z3.is_expr(b):
+        return eq_terms(a, b)
+    if isinstance(a, Lazy) and isinstance(b, Lazy):
+        return a.name == b.name
+    for x, y in ((a, b), (b, a)):
+        # an untyped lazy leaf and the pointer it materialises to under its pointer type
+        if isinstance(x, Lazy) and isinstance(y, Ref) and y.path == () and y.cell.name == x.name:
+            return True
+    if isinstance(a, Ref) and isinstance(b, Ref):
+        if a.cell is b.cell and a.path == b.path:
+            return True
+        if a.pid is not None and b.pid is not None:
+            return eq_terms(a.pid, b.pid)
+        return same_value(ex, ex.read_path(a.cell, a.path), ex.read_path(b.cell, b.path), depth + 1)
+    if isinstance(a, Adt) and isinstance(b, Adt):
+        da = db = None
+        if a.discr is not None or b.discr is not None:
+            da, db = ex.models.discr(ex, a), ex.models.discr(ex, b)
+            if not eq_terms(da, db):
+                return False
+        if a.name is not None and a.name == b.name and not a.fields and not b.fields:
+            return True
+        keys = set(a.fields) | set(b.fields)
+        act = None
+        for x in (a, b):
+            if isinstance(x.discr, int):
+                act = x.discr
+        for k in keys:
+            if act is not None and k[0] is not None and k[0] != act:
+                continue          # field of an inactive variant
+            fa = a.fields.get(k)
+            fb = b.fields.get(k)
+            if fa is None or fb is None:
+                if a.name is None and b.name is None:
+                    return False
+                fa = fa if fa is not None else ex.field_of(a, k[0], k[1], '?')
+                fb = fb if fb is not None else ex.field_of(b, k[0], k[1], '?')
+            if not same_value(ex, fa, fb, depth + 1):
+                return False
+        return True
+    if isinstance(a, Obj) and isinstance(b, Obj):
+        return a.kind == b.kind and a.d == b.d
+    return False
+
+
+def explain_diff(ex, a, b, path='', depth=0):
+    """first difference between two values (for diagnostics)"""
+    from mirsmt.values import Adt
+    a, b = ex.materialize(a), ex.materialize(b)
+    if same_value(ex, a, b) or depth > 10:
+        return None
+    if isinstance(a, Adt) and isinstance(b, Adt):
+        act = None
+        for x in (a, b):
+            if isinstance(x.discr, int):
+                act = x.discr
+        for k in sorted(set(a.fields) | set(b.fields), key=repr):
+            if act is not None and k[0] is not None and k[0] != act:
+                continue
+            fa, fb = a.fields.get(k), b.fields.get(k)
+            if fa is None or fb is None:
+                fa = fa if fa is not None else (ex.field_of(a, k[0], k[1], '?') if a.name else None)
+                fb = fb if fb is not None else (ex.field_of(b, k[0], k[1], '?') if b.name else None)
+                if fa is None or fb is None:
+                    return '%s%s: present on one side only (%s / %s; discr %s / %s)' % (path, k, a.ty[:30], b.ty[:30], a.discr, b.discr)
+            d = explain_diff(ex, fa, fb, path + str(k), depth + 1)
+            if d:
+                return d
+        return '%s: nodes differ (%s discr %s name %s / %s discr %s name %s)' % (path, a.ty[:30], a.discr, a.name, b.ty[:30], b.discr, b.name)
+    return '%s: %r / %r' % (path, a, b)
+
+
+def find_method(prog, struct, meth, trait=None):
+    """the body of an inherent (or trait) method by the NAME of its self type - never by source location"""
+    from mirsmt.interp import Inconclusive
+    c = [b for (st, m), lst in prog.by_method.items() if st == struct and m == meth for tr, b in lst if tr == trait]
+    if len(c) != 1:
+        raise Inconclusive('%s::%s: %d candidates' % (struct, meth, len(c)))
+    return c[0]
+
+
 def model_dict(model, terms):
     """Evaluate named terms in a z3 model -> plain dict."""
     out = {}
